@@ -135,6 +135,20 @@ def compare_tree(d, m, schema, t, where, out, is_consumer, root_invalidation):
         else:
             out.append(item)
             return
+    if k in ("TSB", "TSL") and "ch" in d and isinstance(d.get("it"), dict) and "mi" in d["it"]:
+        # the filtered iteration accessors (modified_items / valid_items / modified_values / valid_values) of this very view
+        # must list exactly the children whose own modified / valid read true in this cycle
+        it = d["it"]
+        names = it.get("names") or list(range(len(d["ch"])))
+        e_mi = [names[i] for i, c in enumerate(d["ch"]) if c.get("m") is True]
+        e_vi = [names[i] for i, c in enumerate(d["ch"]) if c.get("v") is True]
+        if all(isinstance(c.get("m"), bool) and isinstance(c.get("v"), bool) for c in d["ch"]):
+            if sorted(map(str, it["mi"])) != sorted(map(str, e_mi)) or it["mv"] != len(e_mi):
+                out.append(("modified_items_wrong", f"{where} at t={t}: modified_items() lists {it['mi']} ({it['mv']} modified_values) but the children reading modified=true are {e_mi}", dict(feats, parent_modified=d["m"])))
+                return
+            if sorted(map(str, it["vi"])) != sorted(map(str, e_vi)) or it["vv"] != len(e_vi):
+                out.append(("valid_items_wrong", f"{where} at t={t}: valid_items() lists {it['vi']} ({it['vv']} valid_values) but the children reading valid=true are {e_vi}", dict(feats)))
+                return
     if k in ("TSB", "TSL") and "ch" in d and m is not None:
         subs = [cs for _, cs in schema[1]] if k == "TSB" else [schema[1]] * schema[2]
         for i, (cd, cs) in enumerate(zip(d["ch"], subs)):
